@@ -98,6 +98,76 @@ def run_failing(sh, specs):
             sh.count("panic_seen_(C01_subject)")
 
 
+# every construct for which the compiler (or the reference implementation) has a message of its own — a warning that
+# does not come from a @warn/@debug rule — so that `quiet` is observed on all message sources, not only on the two rules
+OWN_MESSAGE_SOURCES = [
+    ({"/p/main.scss": '@use "sass:meta";\na { @include meta.load-css("dep", $with: (x: 1)); }\n', "/p/_dep.scss": "$x: 0 !default;\nb { c: $x; }\n"}),
+    ({"/p/main.scss": '@use "sass:meta";\n@include meta.load-css("dep", $with: ());\n', "/p/_dep.scss": "@warn in-dep;\nb { c: d; }\n"}),
+    ({"/p/main.scss": "a { b: 1/2 + 1; c: (4/2); $x: 6; d: $x/3; }\n"}),
+    ({"/p/main.scss": "@if false { a { b: c; } } @elseif true { d { e: f; } }\n"}),
+    ({"/p/main.scss": "a { $undeclared: 1 !global; b: $undeclared; }\n"}),
+    ({"/p/main.scss": 'a { b: call("str-length", "xy"); }\n'}),
+    ({"/p/main.scss": '@import "dep";\na { b: $x; }\n', "/p/_dep.scss": "$x: 1;\n@debug dep-debug;\n"}),
+    ({"/p/main.scss": "$x: 1 !default !default; a { b: $x; }\n"}),
+    ({"/p/main.scss": ".a.b { c: d; } .e { @extend .a.b; }\n"}),
+    ({"/p/main.scss": "a { b: random(1px); c: percentage(1px); }\n"}),
+    ({"/p/main.scss": "a { b: lighten(red, 10); c: transparentize(red, 10%); d: alpha(1); e: opacity(red); }\n"}),
+    ({"/p/main.scss": "a { b: color-adjust(red); c: adjust-hue(red, 10%); d: hsl(10deg, 10, 10); e: hsl(10, 10%, 10%, 50); }\n"}),
+    ({"/p/main.scss": "a { b: map-merge((a: 1), (a: 2)); c: nth((a: 1), 1); d: join(a, b, $separator: slash); }\n"}),
+    ({"/p/main.scss": "@function -private() { @return 1; } @mixin _m { x: y; } a { b: -private(); @include -m; }\n"}),
+    ({"/p/main.scss": "a { b: 1 +  -2; c: 1 - -2; d: 1 -2; e: a -b; f: +a; g: -a; h: /a; i: 1- 2; }\n"}),
+    ({"/p/main.scss": "a, { b: c; } , d { e: f; } a > > b { c: d; } > e { f: g; } h + { i: j; }\n"}),
+    ({"/p/main.scss": "@media (min-width: 1px) and { a { b: c; } }\n"}),
+    ({"/p/main.scss": "a { b: 10px * 1px / 1px; c: (1px*1px)/1px; d: 1e3; e: 1E3px; f: math-div; }\n"}),
+    ({"/p/main.scss": "a { --x: $y; --z: #{1 + 1}; b: var(--x,); c: calc(1px+2px); d: calc(1 + 2) ; }\n"}),
+    ({"/p/main.scss": "@use 'sass:color'; a { b: color.red(red); c: color.alpha(#f008); d: red(red); e: color.invert(red, 200%); }\n"}),
+    ({"/p/main.scss": "@use 'sass:math'; a { b: math.abs(-1%); c: math.div(1, 0); d: math.round(1.5px); e: 1 % 0; f: -1 % 3; }\n"}),
+    ({"/p/main.scss": "@use 'sass:string'; a { b: string.slice(abc, 0); c: string.index(a, ''); d: unquote(1); e: quote(a b); }\n"}),
+    ({"/p/main.scss": "@use 'sass:list'; a { b: list.nth(a b, -1); c: list.join((), ()); d: list.separator(()); e: append((), a, auto); }\n"}),
+    ({"/p/main.scss": "@use 'sass:selector'; a { b: selector.extend('a', 'a', 'b c'); c: selector.unify('a', '.b'); &b { c: d; } }\n"}),
+    ({"/p/main.scss": "@forward 'dep' show x; @use 'dep' as d; a { b: d.$x; }\n", "/p/_dep.scss": "$x: 1;\n@warn dep-warn;\n"}),
+    ({"/p/main.scss": "@charset 'latin-1'; a { b: '\\e9'; }\n"}),
+    ({"/p/main.scss": "@at-root { a { b: c; } } @at-root (with: foo) { d { e: f; } } @keyframes k { 101% { a: b; } x { c: d; } }\n"}),
+    ({"/p/main.scss": "a { b: if(true, 1); }\n"}),
+    ({"/p/main.scss": "@mixin m($a, $a) { b: $a; }\n"}),
+    ({"/p/main.scss": "a { b: #{null}; c: null; d: (); e: #{()}; f: \"#{(a: 1)}\"; }\n"}),
+]
+
+
+def run_own_message_sources(sh):
+    """quiet on: the Logger must stay empty whatever produces the message; quiet off: the same CSS / the same failure"""
+    specs = []
+    for files in OWN_MESSAGE_SOURCES:
+        for quiet in (True, False):
+            for style in ("expanded", "compressed"):
+                specs.append({"entry": "/p/main.scss", "files": files, "quiet": quiet, "style": style})
+    rs = sh.w.batch(specs)
+    for k in range(0, len(specs), 4):
+        files = specs[k]["files"]
+        text = files["/p/main.scss"]
+        for j in (0, 1):
+            q, l = rs[k + j], rs[k + 2 + j]
+            sh.ev(2)
+            rp = {"entry": "/p/main.scss", "files": files, "quiet": True, "style": specs[k + j]["style"]}
+            facts = {"program": text, "quiet": True}
+            if "fd12" in q or "fd12" in l:
+                sh.violation("writes-to-stdio:own:" + text[:40], "custom Logger in use but the library wrote to stdout/stderr: %r" % (q.get("fd12") or l.get("fd12"))[:200], rp, facts)
+                continue
+            got = [(x[0], x[1], x[2], x[4]) for x in q.get("log", [])]
+            if got:
+                sh.violation("quiet-not-silent:own:" + text[:40], "quiet is set but the Logger received %s\n%s" % (got[:4], text), rp, dict(facts, log=got[:20]))
+                continue
+            a = ("ok", q.get("ok")) if "ok" in q else ("err", (q.get("err") or {}).get("msg")) if "err" in q else ("other", str(sorted(q.keys())))
+            b = ("ok", l.get("ok")) if "ok" in l else ("err", (l.get("err") or {}).get("msg")) if "err" in l else ("other", str(sorted(l.keys())))
+            if a != b:
+                sh.violation("quiet-changes-result:own:" + text[:40], "the result differs between quiet and not quiet: %s vs %s\n%s" % (str(a)[:200], str(b)[:200], text), rp, facts)
+                continue
+            sh.count("own_message_sources_quiet_silent")
+            if l.get("log"):
+                sh.count("own_message_sources_that_log_when_not_quiet")
+            sh.nontrivial(["own", text, specs[k + j]["style"]])
+
+
 def check_trace(sh, prog_text, syntax, quiet, res, expect, line_key, fname, what):
     """Logger events vs model trace incl. file + line"""
     sh.ev()
@@ -158,6 +228,8 @@ def run(sh):
             specs.append(s)
     for i in range(0, len(specs), 64):
         run_failing(sh, specs[i:i + 64])
+    if sh.shard == 0:
+        run_own_message_sources(sh)
     n = 0
     while not sh.expired():
         # ---- failing inputs
